@@ -68,6 +68,10 @@ type Ref struct { // a BlockRef
 	H, V uint64
 	Hash []byte
 	Raw  []byte
+	// Pad (builder side only): 1 = the two alignment bytes after the 16-bit message type carry garbage, 2 = four extra bytes
+	// follow the last field. Either way every field reads back the same; only the bytes that get signed differ from the
+	// canonical encoding.
+	Pad int
 }
 
 type Proof struct {
